@@ -47,7 +47,7 @@ func init() {
 			fn := c.MustFunc(name)
 			bad := ""
 			for f := range c.G.SyncReach(fn) {
-				ast.Inspect(f.Decl.Body, func(n ast.Node) bool {
+				inspectFn(f, func(n ast.Node) bool {
 					if _, isGo := n.(*ast.GoStmt); isGo {
 						return false
 					}
@@ -128,7 +128,7 @@ func init() {
 		checkProbeNode(c, "C04")
 		pn := c.MustFunc("Memberlist.probeNode")
 		first := false
-		ast.Inspect(pn.Decl.Body, func(nd ast.Node) bool {
+		inspectFn(pn, func(nd ast.Node) bool {
 			if call, ok := nd.(*ast.CallExpr); ok {
 				if f := p.Callee(call); f != nil && core.FuncFullName(f) == "time.After" && len(call.Args) == 1 && strings.HasSuffix(p.Canon(call.Args[0]), ".config.ProbeTimeout") {
 					first = true
